@@ -5,8 +5,9 @@
   are closed formulas.  `judge` returns the list of violated clauses ([] = the result is acceptable).
 
   Reading of "funds suffice" (spelled out as `suffice`): a transaction satisfying every other clause
-  EXISTS – some j ≤ k eligible coins cover outputs + fee(j) + MinRelayTxFee (room for a non-dust
-  change; it is enough to look at the j largest), or some ≤k-subset covers outputs + fee exactly.
+  EXISTS whatever coins the selection starts with – the ≤k largest eligible coins cover outputs + the fee
+  of the largest possible selection + MinRelayTxFee (room for a non-dust change), or some ≤k-subset covers
+  outputs + its fee exactly (searched for wallets of ≤ 14 eligible coins).
 -/
 import MW.Model.Ledger
 import MW.Spec.Chain
@@ -100,8 +101,11 @@ def suffice (v : View) (r : Req) : Bool :=
   let amts := sortDescNat ((eligible v r.wallet r.sender).map (·.amt))
   let m := r.outs.length
   let outSum := sumOuts r.outs
-  let withChange := (List.range (min v.k amts.length + 1)).any (fun j =>
-    j > 0 && decide ((amts.take j).sum ≥ outSum + feeFor r.userFee j (m + 1) r.payloadLen + minRelay))
+  -- room for a non-dust change whatever the size of the selection: the fee of the largest selection the
+  -- wallet's coins allow (cf. MW.Props.C02.feeLoop_complete, which proves success under this condition)
+  let nMax := min v.k amts.length
+  let withChange := nMax > 0 &&
+    decide ((amts.take nMax).sum ≥ outSum + feeFor r.userFee (nMax + 1) (m + 1) r.payloadLen + minRelay)
   let exact := amts.length ≤ exactBound &&
     existsExact amts (fun j => outSum + feeFor r.userFee j m r.payloadLen) v.k
   withChange || exact
